@@ -3124,7 +3124,12 @@ public:
     {
         if(is_constant_evaluated())
         {
-            return string_length(data());
+            std::size_t length{};
+            for(; (length != size()) && (data()[length] != '\0'); length++)
+            {
+            }
+
+            return length;
         }
         else
         {
